@@ -31,11 +31,11 @@ def run(v, tier, seed, replay):
         v.coverage["overload_scenarios"] = tags
     if not replay and not v.violations:
         c09.run_scenarios(v, {"cancel-split-%d" % k: c09.sc_cancel_split(k) for k in (1, 2, 3)}, with_model=False, jobs=3)
-    # cancelable programs on (nearly) full queues: nothing of a cancelled trace, nothing twice; the model agrees
-    if not replay and not v.violations:
-        import common as C
-        v.coverage["overload_programs"] = c09.overload_stream(v, C.Rng(seed * 1000003 + 4004), tier, 16, 1000, True)
     # D21: the cancel is parked on its thread, the root finishes elsewhere (model: Sys.parkedCancels / takeParked)
     if not replay and not v.violations:
         c09.run_scenarios(v, {"cancel-parked-%s" % k: c09.sc_cancel_parked_elsewhere(k) for k in c09.PARKED_VARIANTS},
                           with_model=True, jobs=6)
+    # cancelable programs on (nearly) full queues: nothing of a cancelled trace, nothing twice; the model agrees
+    if not replay and not v.violations:
+        import common as C
+        v.coverage["overload_programs"] = c09.overload_stream(v, C.Rng(seed * 1000003 + 4004), tier, 16, 1000, True)
